@@ -248,6 +248,14 @@ CHECKS = [
              "RegriddingOperator interpolates linearly between the two bracketing source pixels; LOSResponse of a symbolic piecewise "
              "constant field is the sum of pixel value x length of the line inside the pixel (axis-parallel and diagonal lines).",
      "design_ref": "DESIGN.md 4/C35"},
+    {"property_id": "C09", "engine": "A", "category": "other", "technique": TECH_A + "; the compiled FFT kernels (ducc0, SciPy, XLA) are replaced by their contract (explicit DFT sums with exact twiddle factors, validated against the real kernels on float input in every run); nifty.re's hartley via the jaxpr front end",
+     "note": NOTE_A + " Bounds: 1-D grids with 3-4 pixels, 2-D 2x4 / 4x2, concrete distances. The kernels themselves and the spherical-harmonic transforms (ducc0.sht) are outside the claim.",
+     "text": "Bounded symbolic verification: for ALL field values the zero mode of FFTOperator / HartleyOperator applied to a "
+             "position-space field is its integral (and vice versa), times / inverse_times / adjoint_times / adjoint_inverse_times "
+             "are mutually consistent, the native and SciPy dispatch paths and nifty.re's hartley agree under both Hartley "
+             "conventions and equal Re(FFT) -+ Im(FFT), and HarmonicSmoothingOperator is the identity for sigma = 0 and the Gaussian "
+             "kernel in harmonic space otherwise (self-adjoint, integral preserving).",
+     "design_ref": "DESIGN.md 4/C09"},
 ]
 
 ALL = [f"C{i:02d}" for i in range(1, 37)]
